@@ -91,6 +91,9 @@ def run_pelt(
     # Evolving set of admissible segment starts.
     cost_eval_starts = np.array(([0]), dtype=np.int64)
 
+    # Starts found prunable at each of the last min_segment_length - 1 observations.
+    prunable_starts = []
+
     observation_indices = np.arange(2 * min_segment_length - 1, num_obs).reshape(-1, 1)
     for current_obs_ind in observation_indices:
         latest_start = current_obs_ind - min_segment_shift
@@ -109,9 +112,19 @@ def run_pelt(
         prev_cpts[current_obs_ind] = cost_eval_starts[argmin_candidate_cost]
 
         # Trimming the admissible starts set: (reuse the array of optimal costs)
-        cost_eval_starts = cost_eval_starts[
-            candidate_opt_costs + split_cost <= opt_cost[current_obs_ind + 1] + penalty
-        ]
+        # A start that is prunable now can still be optimal for the next
+        # min_segment_length - 1 observations, because the current observation is
+        # not an admissible segment start for them. The removal is therefore delayed.
+        prunable_starts.append(
+            cost_eval_starts[
+                candidate_opt_costs + split_cost
+                > opt_cost[current_obs_ind + 1] + penalty
+            ]
+        )
+        if len(prunable_starts) >= min_segment_length:
+            cost_eval_starts = cost_eval_starts[
+                ~np.isin(cost_eval_starts, prunable_starts.pop(0))
+            ]
 
     return opt_cost[1:], get_changepoints(prev_cpts)
 
